@@ -27,7 +27,8 @@ ASSUMPTIONS = [
     'name mode is used within its documented limits: no context, no config file mounted twice, unique config names',
     'empty directories are not counted (inspecting a DirData task creates an empty <name>_tmp directory)',
 ]
-KINDS = ['dict', 'list', 'str', 'numpy', 'frame', 'generator', 'lazy', 'dir', 'list_numpy', 'memory', 'dir', 'list_numpy']
+KINDS = ['dict', 'list', 'str', 'numpy', 'frame', 'generator', 'lazy', 'dir', 'list_numpy', 'memory', 'dir', 'list_numpy',
+         'gen_empty']   # (a generated sequence without rows: a 0-byte result file)
 DIR_KINDS = ('dir', 'list_numpy')
 
 
